@@ -330,6 +330,20 @@ GlyphCompPos ==
   \o <<GCf(<<2 + 256 + 128, 3 + 64, 8>>, <<1, 2, 3>>), GCf(<<1 + 8, 2 + 256, 3 + 128>>, <<1>>),
        GCf(<<3 + 256 + 64, 0>>, Str(300, 1)), GCf(<<2 + 256, 2, 2>>, Str(255, 2)), GCf(<<2, 2 + 256, 2>>, Str(256, 3))>>
 
+\* thorough: the full product of component shapes (argument width / signedness / transform kind) and of the
+\* positions of WE_HAVE_INSTRUCTIONS, for 1-3 components
+CompPalette == <<2, 3, 0 + 8, 3 + 64, 2 + 128, 1>>
+RECURSIVE Tuples(_, _)
+Tuples(n, k) ==      \* all sequences of length n over 1 .. k, as a sequence
+  IF n = 0 THEN <<<<>>>>
+  ELSE LET sub == Tuples(n - 1, k) IN Cat([i \in 1 .. k |-> [j \in 1 .. Len(sub) |-> <<i>> \o sub[j]]])
+GlyphCompProduct ==
+  IF ~Thorough THEN <<>>
+  ELSE Cat([n \in 1 .. 3 |-> LET ts == Tuples(n, Len(CompPalette)) IN
+         Cat([t \in 1 .. Len(ts) |-> [m1 \in 1 .. Pow2i(n) |->
+            GCf([i \in 1 .. n |-> CompPalette[ts[t][i]] + (IF Bit(m1 - 1, i) THEN 256 ELSE 0)],
+                IF m1 = 1 THEN <<>> ELSE <<9, 8>>)]])])
+
 \* -- simple glyphs (through the writer): ON_CURVE, the extreme coordinates and the contour ends in every
 \* position; instruction lengths around 255 / 256
 GSn(ends, instr, pts) == GS(<<-10, -20, 100, 100>>, ends, instr, pts)
@@ -362,6 +376,9 @@ GlyphPackedVals ==
        GP(<<4>>, <<>>, <<PW, <<9, 300, -300>>, <<9, 300, -300>>, <<9, 1, 1>>, PW>>)>>
   \o [n \in 1 .. 4 |-> GP(<<253 + n>>, <<>>, [i \in 1 .. (254 + n) |-> PRep])]           \* 255 .. 258 points, one flag
   \o <<GP(<<299>>, <<>>, [i \in 1 .. 300 |-> IF i <= 20 THEN PW ELSE PRep])>>
+  \* thorough: every combination of forms on three consecutive points
+  \o (IF ~Thorough THEN <<>>
+      ELSE LET ts == Tuples(3, Len(PForms)) IN [t \in 1 .. Len(ts) |-> GP(<<2>>, <<>>, [i \in 1 .. 3 |-> PForms[ts[t][i]]])])
 
 ---------------------------------------------------------------------------
 \* CFF
@@ -521,7 +538,7 @@ Vals(k) ==
     [] k = "cvt" -> CvtVals [] k = "loca" -> LocaVals \o LocaPos [] k = "os2" -> Os2Vals \o Os2Pos
     [] k = "post" -> PostVals \o PostPos [] k = "name" -> NameVals \o NamePos
     [] k = "cmapsub" -> CmapSubVals \o <<CmapSeg32768>> \o CmapSubPos [] k = "cmap" -> CmapVals \o CmapTblPos
-    [] k = "glyph" -> GlyphVals \o GlyphInstrPos \o GlyphCompPos \o SimplePos [] k = "glyphp" -> GlyphPackedVals
+    [] k = "glyph" -> GlyphVals \o GlyphInstrPos \o GlyphCompPos \o SimplePos \o GlyphCompProduct [] k = "glyphp" -> GlyphPackedVals
     [] k = "cffint" -> CffIntVals [] k = "dict" -> DictVals \o DictPos [] k = "index" -> IndexVals \o IndexPos
     [] k = "indexo" -> IndexOwnedVals \o IndexOwnedPos [] k = "charset" -> CharsetVals \o CharsetPos
     [] k = "encoding" -> EncodingVals \o EncodingPos [] k = "fdselect" -> FdSelectVals \o FdSelectPos
